@@ -18,7 +18,7 @@ BULK     := $(shell seq -f "a%03g" 0 139)
 STUBN    := m0 m1 m2 m3 m4 m5 m6 m7 m8 m9 m m1x m1xy M2z
 # each stub in four variants: all hooks / no post-init / no destructor / neither (separate files: dlopen
 # identifies a library by its inode)
-STUBS    := $(STUBN) $(addsuffix _np,$(STUBN)) $(addsuffix _nd,$(STUBN)) $(addsuffix _npd,$(STUBN)) $(BULK)
+STUBS    := $(STUBN) $(addsuffix _np,$(STUBN)) $(addsuffix _nd,$(STUBN)) $(addsuffix _npd,$(STUBN)) $(addsuffix _nc,$(STUBN)) $(BULK)
 HDRS     := $(wildcard $(REPO)/src/*.h) $(wildcard $(REPO)/modules/*.h) $(wildcard $(REPO)/autoconf.h) $(B)/.flags
 
 # objects are rebuilt when the compile line or the repository location changes
@@ -62,6 +62,12 @@ $(B)/stubs/stub_nd.so: /verif/sim/stub_module.c $(HDRS) | $(B)/stubs
 $(B)/stubs/stub_npd.so: /verif/sim/stub_module.c $(HDRS) | $(B)/stubs
 	$(CC) $(CFLAGS) -DSTUB_NO_POSTINIT -DSTUB_NO_DTOR -fPIC -shared $< -o $@
 
+$(B)/stubs/stub_nc.so: /verif/sim/stub_module.c $(HDRS) | $(B)/stubs
+	$(CC) $(CFLAGS) -DSTUB_NO_CTOR -fPIC -shared $< -o $@
+
+$(B)/stubs/m%_nc.so: $(B)/stubs/stub_nc.so
+	cp $< $@
+
 $(B)/stubs/m%_np.so: $(B)/stubs/stub_np.so
 	cp $< $@
 
@@ -85,6 +91,8 @@ $(B)/stubs/m_np.so $(B)/stubs/M2z_np.so: $(B)/stubs/stub_np.so
 $(B)/stubs/m_nd.so $(B)/stubs/M2z_nd.so: $(B)/stubs/stub_nd.so
 	cp $< $@
 $(B)/stubs/m_npd.so $(B)/stubs/M2z_npd.so: $(B)/stubs/stub_npd.so
+	cp $< $@
+$(B)/stubs/m_nc.so $(B)/stubs/M2z_nc.so: $(B)/stubs/stub_nc.so
 	cp $< $@
 
 build:
